@@ -6,3 +6,4 @@ import MW.Props.C06
 #print axioms MW.Props.C06.batch_evolution
 #print axioms MW.Props.C06.callbacks_leave_batches
 #print axioms MW.Props.C06.expected_immutable
+#print axioms MW.Props.C06.lifecycle_every_world_history
